@@ -1,7 +1,7 @@
 #!/bin/bash
-# usage: tools/collect_benign.sh A01 ...  — copies /tmp/wtb/<area>/out/b*/ into /verif/benign/<area>-bK/
+# usage: tools/collect_benign.sh A01 ...  — copies ${WTB:-/tmp/wtb}/<area>/out/b*/ into /verif/benign/<area>-bK/
 for a in "$@"; do
-  for d in /tmp/wtb/$a/out/b*/; do
+  for d in ${WTB:-/tmp/wtb}/$a/out/b*/; do
     k=$(basename $d); t=/verif/benign/$a-$k
     [ -f $d/patch.diff ] || continue
     mkdir -p $t; cp $d/patch.diff $t/; cp $d/README.md $t/ 2>/dev/null
